@@ -22,9 +22,11 @@ import (
 // on every check, through the same op-line protocol (so the Lean model must predict every output),
 // and carry expectations owned by the harness (monitor `scenario-expectation`).
 //
-//   f-c17-1-hash-dependent-parse   KNOWN FINDING F-C17-1: the validator parses with hash id "", the
-//                                  scheduler with the namespaced name, and cronexpr's verdict on
-//                                  `H/n` (fields whose minimum is 1) and `H(a-b)/n` depends on the id
+//   f-c17-1-hash-dependent-parse   FIXED finding F-C17-1 (commit d9dad79), regression replay: the validator
+//                                  parsed with hash id "" only, the scheduler parses with the namespaced
+//                                  name, and cronexpr's verdict on `H/n` (fields whose minimum is 1) and
+//                                  `H(a-b)/n` depends on the id; the validator now re-parses with the name.
+//                                  What remains: an object admitted with generateName (empty name)
 //   f-c17-2-default-timezone       KNOWN FINDING F-C17-2: a JobConfig without timezone is accepted while
 //                                  the dynamic configuration's defaultTimezone does not parse
 //   f-c17-3-hash-range-wraparound  KNOWN FINDING F-C17-3: `H(a-b)` with a > b parses, materialises a value
@@ -427,24 +429,50 @@ func runValidateScenarios(c *Ctx) {
 		good1, good2 := baseJC("default", "a"), baseJC("prod", "report")
 		w.admitJC(good1, false)
 		w.admitJC(good2, false)
-		// `0 0 H/5 * *`: "every 5th day, offset by hash".  With hash id "" the offset is non-zero (accepted);
-		// for default/b the offset is 0, below day-of-month's minimum 1: the scheduler's parse fails.
+		// `0 0 H/5 * *`: "every 5th day, offset by hash".  With hash id "" the offset is non-zero; for default/b
+		// the offset is 0, below day-of-month's minimum 1: the scheduler's parse fails.  Before fix d9dad79 the
+		// webhook admitted it (and cronschedule.New then failed for the whole cache: accepted-loadable fires
+		// again if the defect returns); now it re-parses with the namespaced name and refuses.
 		bad := baseJC("default", "b")
 		bad.Spec.Schedule.Cron.Expression = "0 0 H/5 * *"
-		_, out := w.admitJC(bad, false) // raises accepted-loadable (known finding)
-		w.expect("validator accepts", out, "ok")
-		// and one accepted object wedges the whole load
+		if w.effectiveTrit("0 0 H/5 * *", "") != 'o' || w.effectiveTrit("0 0 H/5 * *", "default/b") != 'e' {
+			w.c.Violate("C17", "scenario-expectation", "the library no longer gives ok/error for `0 0 H/5 * *` with ids \"\"/default/b")
+		}
+		_, out := w.admitJC(bad, false)
+		w.expect("validator refuses default/b", out, "rej spec.schedule.cron:I")
+		// the same line under a name for which it parses is fine
+		okName := baseJC("prod", "report2")
+		okName.Spec.Schedule.Cron.Expression = "0 0 H/5 * *"
+		if w.effectiveTrit("0 0 H/5 * *", "prod/report2") == 'o' {
+			_, out = w.admitJC(okName, false)
+			w.expect("validator admits prod/report2", out, "ok")
+		}
+		// also when the schedule is disabled (the re-parse does not look at `disabled`)
+		dis := baseJC("default", "b")
+		dis.Spec.Schedule.Cron.Expression = "0 0 H/5 * *"
+		dis.Spec.Schedule.Disabled = true
+		_, out = w.admitJC(dis, false)
+		w.expect("validator refuses default/b even when disabled", out, "rej spec.schedule.cron:I")
+		// whatever was admitted loads together
 		w.monitorLoadable(w.accepted)
 		// the second shape of the class
 		bad2 := baseJC("default", "a2")
 		bad2.Spec.Schedule.Cron.Expression = "H(18-20)/5 * * * *"
 		for _, name := range []string{"a2", "ns-jobconfig", "report", "x", "y", "z", "w"} {
 			bad2.Name = name
-			if w.effectiveTrit(bad2.Spec.Schedule.Cron.Expression, "") != w.effectiveTrit(bad2.Spec.Schedule.Cron.Expression, jcKey(bad2)) {
+			if w.effectiveTrit(bad2.Spec.Schedule.Cron.Expression, "") == 'o' && w.effectiveTrit(bad2.Spec.Schedule.Cron.Expression, jcKey(bad2)) == 'e' {
+				_, out = w.admitJC(bad2, false)
+				w.expect("validator refuses "+jcKey(bad2), out, "rej spec.schedule.cron:I")
 				break
 			}
 		}
-		w.admitJC(bad2, false)
+		// what remains: generateName — the name is empty at admission, the re-parse is skipped, and the verdict
+		// for the final name is unknowable (counted as outside E-HashStable, not raised)
+		gen := baseJC("default", "")
+		gen.GenerateName = "b-"
+		gen.Spec.Schedule.Cron.Expression = "0 0 H/5 * *"
+		_, out = w.admitJC(gen, false)
+		w.expect("generateName is admitted", out, "ok")
 		c.Nontrivial()
 	})
 
